@@ -170,6 +170,17 @@ func (s *wsSession) send(m wsMsg) error {
 	return s.conn.WriteMessage(t, m.Data)
 }
 
+// closeFromBackend ends the websocket from the backend's side: a close frame
+// (if graceful) and then the connection.
+func (s *wsSession) closeFromBackend(graceful bool) {
+	s.wmu.Lock()
+	defer s.wmu.Unlock()
+	if graceful {
+		s.conn.WriteControl(websocket.CloseMessage, websocket.FormatCloseMessage(websocket.CloseNormalClosure, "done"), time.Now().Add(time.Second))
+	}
+	s.conn.Close()
+}
+
 // wsBackend wires a recordingBackend so that every websocket connection
 // becomes a wsSession; OnSession runs once the session exists.
 type wsBackend struct {
@@ -177,6 +188,10 @@ type wsBackend struct {
 	mu       sync.Mutex
 	Sessions []*wsSession
 	OnOpen   func(s *wsSession)
+	// Stubborn, if it returns true for a request URI, makes the backend ignore the
+	// websocket closing handshake: it neither echoes a close frame nor hangs up, and
+	// the session only counts as closed once the peer has ended the TCP connection.
+	Stubborn func(uri string) bool
 }
 
 func startWSBackend(w *World) *wsBackend {
@@ -192,9 +207,23 @@ func startWSBackend(w *World) *wsBackend {
 			go on(s)
 		}
 		c.SetReadLimit(64 << 20)
+		stubborn := wb.Stubborn != nil && wb.Stubborn(s.Path)
+		if stubborn {
+			c.SetCloseHandler(func(int, string) error { return nil })
+		}
 		for {
 			mt, data, err := c.ReadMessage()
 			if err != nil {
+				if _, isClose := err.(*websocket.CloseError); isClose && stubborn {
+					// keep the socket open until the peer ends it
+					raw := c.UnderlyingConn()
+					buf := make([]byte, 512)
+					for {
+						if _, rerr := raw.Read(buf); rerr != nil {
+							break
+						}
+					}
+				}
 				s.mu.Lock()
 				s.Closed = true
 				s.CloseAt = w.K.Now()
